@@ -721,8 +721,8 @@ where
                     self.buffer.push_back(item);
                     if self.end == 0 && self.begin < 0 {
                         // we only need to keep part of the buffer in this case
-                        if self.buffer.len() > self.begin.abs() as usize {
-                            let excess = self.buffer.len() - self.begin.abs() as usize;
+                        if self.buffer.len() > self.begin.unsigned_abs() {
+                            let excess = self.buffer.len() - self.begin.unsigned_abs();
                             for _ in 0..excess {
                                 self.buffer.pop_front();
                             }
@@ -741,13 +741,13 @@ where
                     // but first we prune unneeded items:
                     if self.end < 0 && self.begin < 0 {
                         //discard items from the begin which we do not want (only the last abs(begin) items are in range)
-                        while self.buffer.len() > self.begin.abs() as usize {
+                        while self.buffer.len() > self.begin.unsigned_abs() {
                             self.buffer.pop_front();
                         }
                     }
                     if self.end < 0 {
                         //discard some items at the end which we do not want
-                        for _ in 0..self.end.abs() {
+                        for _ in 0..self.end.unsigned_abs() {
                             self.buffer.pop_back();
                         }
                     }
